@@ -251,3 +251,42 @@ package iavl
 //@   ensures [frame] nframe(old(heap(N)), heap(N), old(na))
 //@   modifies nodeDB.*[*], Statistics.*[*]
 //@   decreases hgt(view(node))
+
+// ---------------------------------------------------------------- import / compressed streams (C10: total on hostile node streams)
+
+//@ func diffOffset(a, b) (off)
+//@   props C10
+//@   ensures [range] 0 <= off && off <= len(a) && off <= len(b)
+//@   loop 1 invariant 0 <= off && off <= l && l <= len(a) && l <= len(b)
+
+//@ func deltaEncode(key, lastKey) (res)
+//@   props C10
+//@   ensures [nonnil] res != nil && len(res) >= 1
+
+//@ func deltaDecode(key, lastKey) (res, err)
+//@   props C10
+//@   ensures [nonnil] err == nil ==> res != nil
+//@   ensures [nilonerr] err != nil ==> res == nil
+
+// CompressImporter.Add: any node, any history of earlier nodes (arbitrary stacks) — no panic.
+//@ func (*CompressImporter).Add(i, node) (err)
+//@   props C10
+//@   requires i != nil && node != nil && i.inner != nil
+//@   modifies *
+
+// writeNode hands a batch to a background goroutine (channels are outside the
+// modelled subset): only its preconditions are checked at the call sites.
+//@ func (*Importer).writeNode(i, node) (err)
+//@   assumed body uses a goroutine and a channel; its effect on the importer is limited to the fields listed
+//@   requires i != nil && node != nil && node.nodeKey != nil && i.batch != nil && i.tree != nil && i.tree.ndb != nil
+//@   ensures i.batch != nil
+//@   modifies i.batchSize, i.inflightCommit, i.batch, node.hash
+
+// Importer invariant: the nonce table covers versions 0..version, the stack holds nodes.
+//@ func (*Importer).Add(i, exportNode) (err)
+//@   props C10
+//@   requires i != nil
+//@   requires i.tree != nil ==> i.version >= 0 && len(i.nonces) == i.version + 1 && i.tree.ndb != nil && i.batch != nil
+//@   requires all(i.stack, n, n != nil && n.nodeKey != nil)
+//@   ensures [inv] i.tree != nil ==> len(i.nonces) == old(len(i.nonces)) && i.version == old(i.version)
+//@   modifies *
